@@ -87,6 +87,14 @@ def check_len(schema, rw, codec, tname, val):
 def check_case(schema, tname, val, codec=None, rw=None):
     rw = rw or RefWire(schema)
     codec = codec or pyh.PyCodec(schema)
+    if codec is not None and tname is None and val is None and not any(
+            len(v) > 1 for st_ in schema.structs() for v in st_.sizers().values()):
+        try:
+            bad = cpp_statics(schema)
+            if bad:
+                return (bad[0], bad[1])
+        except Exception:
+            pass
     for d in schema.decls:
         if isinstance(d, (Struct, Union, Typedef)):
             bad = check_type(schema, rw, codec, d)
@@ -149,10 +157,74 @@ def body(case, stats):
             raise Violation(bad[0], common.case_payload(schema, tname, val, bad[1]))
 
 
+def cpp_statics(schema):
+    """encoded_byte_size of the C++ full codec and sizeof of the raw struct for every composite.
+    -> None | (what, details, type name)"""
+    from vlib import cpph
+    rw = RefWire(schema)
+    full = cpph.FullTU(schema, sanitize=False, python=False)
+    try:
+        ebs = {}
+        import subprocess
+        p = subprocess.run([full.exe], input=b'consts\n', stdout=subprocess.PIPE, stderr=subprocess.PIPE, timeout=60)
+        for l in p.stdout.decode().splitlines():
+            if l.startswith('C '):
+                _, name, val = l.split()
+                ebs[name] = int(val.split('=')[1])
+    finally:
+        full.cleanup()
+    for c in schema.composites():
+        size, align, stiff = rw.layout(c.name)
+        want = size if stiff == FIXED else -1
+        if ebs.get(c.name) != want:
+            return ("C++ full codec: %s::encoded_byte_size is %r, wire rules say %r" % (c.name, ebs.get(c.name), want),
+                    {'stiffness': KIND_NAMES[stiff]}, c.name)
+    raw = cpph.RawTU(schema, sanitize=False)
+    try:
+        for label, want, got in raw.layout():
+            if label.endswith(':sizeof') and want != got:
+                return ("raw C++ %s is %r, wire size is %r" % (label, got, want), {}, label.split(':')[0])
+    finally:
+        raw.cleanup()
+    return None
+
+
+def cpp_part(widx, seed, tier, stats):
+    from vlib import cpph, cppcamp
+    n_tus = {'quick': 1, 'thorough': 12}[tier]
+    opts = gen.GenOpts(cpp_full_ok=True, avoid=common.avoid_set(ID), big_sizes=False)
+    cases = cppcamp.collect_cases(gen.schemas(opts), seed + 9, n_tus * 5)
+    for i in range(0, len(cases), 5):
+        chunk = cases[i:i + 5]
+        merged, _ = cpph.merge_cases([(s, []) for s in chunk])
+        try:
+            bad = cpp_statics(merged)
+        except (cpph.BuildFailed, pyh.CompileFailed):
+            stats.notes['tu_build_failed'] += 1
+            continue
+        rw = RefWire(merged)
+        for c in merged.composites():
+            feats = type_features(rw, c) | {'cpp'}
+            stats.case((merged.to_prophy(), c.name, 'cpp'), 'multi_member' in feats and bool(feats & NONTRIVIAL), feats)
+        if bad:
+            # re-run the offending original schema alone for a small replay
+            ci = int(bad[2].split('_')[0][1:]) if bad[2].startswith('P') else 0
+            single = chunk[ci]
+            bad1 = cpp_statics(single) or bad
+            fid = common.classify_known(ID, single, RefWire(single), bad1[2] if bad1[2] in single.by_name else None, None, bad1)
+            if fid:
+                stats.known_finding(fid, {'schema': single.to_prophy()})
+                continue
+            stats.violations.append({'what': bad1[0], 'case': common.case_payload(single, None, None, dict(bad1[1], cpp=True))})
+            return
+
+
 def worker(widx, seed, tier, stats):
     n = {'quick': 300, 'thorough': 6000}[tier]
     opts = gen.GenOpts(avoid=common.avoid_set(ID))
     runner.run_given(gen.schema_with_values(opts), body, seed, n, stats)
+    if not stats.violations:
+        cpp_part(widx, seed, tier, stats)
 
 
 def run(tier, seed):
